@@ -1097,6 +1097,38 @@ def r5b_statement_kind(R) -> None:
         if 'ast.Assign' in text(t.ast) and 'isinstance' in text(t.ast):
             tests.append(t)
     if not tests:
+        # the test written as a predicate function (`return isinstance(node, ast.Assign) and ...`), possibly with the
+        # counting done by unpacking (`(node,) = body` inside try/except ValueError: exactly one, or the handler answers False)
+        for fn_ in R.repo.module(P).tree.body:
+            if not isinstance(fn_, ast.FunctionDef):
+                continue
+            rets_ = [x for x in ast.walk(fn_) if isinstance(x, ast.Return) and x.value is not None and any(is_call(y, 'isinstance') and 'ast.Assign' in text(y) for y in ast.walk(x.value))]
+            if not rets_:
+                continue
+            ev = [text(a) for r_ in rets_ for a in conj_atoms(r_.value)]
+            par_ = {}
+            for p_ in ast.walk(fn_):
+                for c_ in ast.iter_child_nodes(p_):
+                    par_[id(c_)] = p_
+            for x in ast.walk(fn_):
+                if isinstance(x, ast.Assign) and len(x.targets) == 1 and isinstance(x.targets[0], (ast.Tuple, ast.List)) and len(x.targets[0].elts) == 1 \
+                        and not isinstance(x.targets[0].elts[0], ast.Starred):
+                    cur = par_.get(id(x))
+                    while cur is not None and not isinstance(cur, ast.Try):
+                        cur = par_.get(id(cur))
+                    if cur is not None and any(x is y for b_ in cur.body for y in ast.walk(b_)) and any(
+                            (h.type is None or any(nm in text(h.type) for nm in ('ValueError', 'Exception'))) and h.body and isinstance(h.body[-1], ast.Return)
+                            and isinstance(h.body[-1].value, ast.Constant) and h.body[-1].value.value is False for h in cur.handlers):
+                        ev.append(f'len({text(x.value)}) == 1')
+            one_stmt = any(a.startswith('len(') and a.endswith('== 1') and 'targets' not in a for a in ev)
+            one_tgt = any(a.startswith('len(') and 'targets' in a and a.endswith('== 1') for a in ev)
+            if one_stmt and not one_tgt and any('.targets[0]' in text(y) for y in ast.walk(fn_)):
+                R.violation(f'{P}.{fn_.name}', 'statement-kind-conjuncts:first-target-only',
+                            f'{fn_.name}() looks at `targets[0]` only: nothing establishes that the assignment has a single target, so a chained assignment (`D = A = B`, a mistyped '
+                            f'`D = A == B`) passes the statement-kind test: `A` is classified exogenous and assigned', where=f'fsic/parser.py:{fn_.lineno}')
+                return
+            if one_stmt and one_tgt:
+                raise Unknown(f'{P}.{fn_.name}: the statement-kind test is a predicate function; how its answer reaches the problem report was not followed')
         # is the generated statement inspected by anything else?
         uses_ast = any(is_call(x, 'ast.parse') or (is_call(x, 'compile') and 'PyCF_ONLY_AST' in text(x)) or 'ast.Assign' in text(x)
                        for fn_ in R.repo.module(P).tree.body if isinstance(fn_, ast.FunctionDef) for x in ast.walk(fn_) if isinstance(x, (ast.Call, ast.Attribute)))
